@@ -54,6 +54,13 @@ func scenarios(c *vlib.Ctx) []*slib.Scn {
 			}
 		}
 	}
+	// bodies that keep their slot until released one by one: the limit must hold at every moment of the drain
+	for _, ms := range multisets(base, 4) {
+		if c.Quick() && ms[0] != ms[1] && ms[2] != ms[3] {
+			continue
+		}
+		add(modules.C15Params{Limit: 2, Tasks: ms, Hold: true}, vlib.Pick(c, 1, 2))
+	}
 	// outcomes: errors and panics, with and without a high priority task
 	for _, o := range []string{"err", "panic"} {
 		for _, v := range []string{"run", "start", "signal"} {
@@ -64,6 +71,10 @@ func scenarios(c *vlib.Ctx) []*slib.Scn {
 	}
 	for _, v := range []string{"run", "start", "signal"} {
 		add(modules.C15Params{Limit: 2, Tasks: []string{"h-" + v + "-ok", "m-run-ok", "m-start-ok", "l-signal-ok"}}, bound)
+	}
+	// panicking microtasks while the error reporting channel is full and unread
+	for _, pr := range []string{"h", "m", "l"} {
+		add(modules.C15Params{Limit: 2, Tasks: []string{pr + "-run-panic", "m-run-ok", pr + "-start-panic"}, FullCh: true}, vlib.Pick(c, 1, 2))
 	}
 	// a function that returns context.Canceled (plain or wrapped): the blocking variants hand it to their caller like any other error
 	for _, o := range []string{"canceled", "wrapcanceled"} {
@@ -80,6 +91,8 @@ func scenarios(c *vlib.Ctx) []*slib.Scn {
 	} {
 		add(modules.C15Params{Limit: 2, Tasks: ts, QueueCap: 1}, vlib.Pick(c, 1, 2))
 		add(modules.C15Params{Limit: 2, Tasks: ts, QueueCap: 2}, vlib.Pick(c, 1, 2))
+		// the same with bodies that keep their slot until the root releases them one by one
+		add(modules.C15Params{Limit: 2, Tasks: ts, QueueCap: 1, Hold: true}, vlib.Pick(c, 1, 2))
 	}
 	// the module is stopped while microtasks are running: the stop completes as soon as they finished
 	for _, ts := range [][]string{{"m-run-ok"}, {"m-signal-ok"}, {"l-start-ok"}, {"h-run-ok"}, {"m-run-ok", "l-run-ok"}, {"m-start-ok", "m-signal-ok", "l-run-ok"}} {
